@@ -293,8 +293,8 @@ func c10(args []string) int {
 		},
 		Coverage: map[string]any{
 			"evaluations": evals, "distinct_nontrivial": len(outcomes),
-			"rule":        "for each replica built by a real history and each file of its restore plan: delete it, truncate it to every length, XOR every byte with 0x01 and with 0xFF, and fail its download (error / premature EOF) at every byte offset 1..4 consecutive times; plus pre-existing output (file, directory, symlink) and a forced integrity failure; oracle: outcome is an error, or success with bytes identical to the uncorrupted restore; never <output>.tmp left, never an output after an error, never an existing path touched; distinct = (corruption class, outcome class) pairs",
-			"samples":     samples, "exhaustive": exhaustive, "jobs_planned": len(jobs), "jobs_done": done, "replicas": plans, "outcome_classes": top,
+			"rule":    "for each replica built by a real history and each file of its restore plan: delete it, truncate it to every length, XOR every byte with 0x01 and with 0xFF, and fail its download (error / premature EOF) at every byte offset 1..4 consecutive times; plus pre-existing output (file, directory, symlink) and a forced integrity failure; oracle: outcome is an error, or success with bytes identical to the uncorrupted restore; never <output>.tmp left, never an output after an error, never an existing path touched; distinct = (corruption class, outcome class) pairs",
+			"samples": samples, "exhaustive": exhaustive, "jobs_planned": len(jobs), "jobs_done": done, "replicas": plans, "outcome_classes": top,
 		}}
 	if err := ev.Write(e); err != nil {
 		fmt.Fprintln(os.Stderr, err)
@@ -323,7 +323,33 @@ func fingerprint(p string) string {
 }
 
 // c10Garbage rewrites the first plan file so that page 2 holds garbage while all LTX checksums stay valid.
-func c10Garbage(dir string, f scn.FileRef) error {
+func c10Garbage(dir string, f scn.FileRef) error { return c10Damage(dir, []scn.FileRef{f}, "page") }
+
+// c10Damage rewrites one plan file so that the restored database is damaged while every LTX checksum stays
+// valid. what = "page": garbage in the lowest page >= 2 of the newest file; "magic": the SQLite header magic on
+// page 1 destroyed ("file is not a database": the integrity PRAGMA itself fails); "schema": the b-tree header of
+// page 1 destroyed ("database disk image is malformed" as a statement error, not as check rows).
+func c10Damage(dir string, plan []scn.FileRef, what string) error {
+	f := plan[len(plan)-1]
+	if what != "page" {
+		found := false
+		for i := len(plan) - 1; i >= 0 && !found; i-- {
+			b, err := os.ReadFile(planPath(dir, plan[i]))
+			if err != nil {
+				return err
+			}
+			lf, err := decodeLTX(b)
+			if err != nil {
+				return err
+			}
+			if _, ok := lf.Pages[1]; ok {
+				f, found = plan[i], true
+			}
+		}
+		if !found {
+			return fmt.Errorf("no plan file carries page 1")
+		}
+	}
 	p := planPath(dir, f)
 	b, err := os.ReadFile(p)
 	if err != nil {
@@ -355,8 +381,15 @@ func c10Garbage(dir string, f scn.FileRef) error {
 		if !ok {
 			continue
 		}
-		if pg == target {
+		switch {
+		case what == "page" && pg == target:
 			d = bytes.Repeat([]byte{0xAB}, len(d))
+		case what == "magic" && pg == 1:
+			d = append([]byte{}, d...)
+			copy(d[0:16], bytes.Repeat([]byte{0xAB}, 16))
+		case what == "schema" && pg == 1:
+			d = append([]byte{}, d...)
+			copy(d[100:112], bytes.Repeat([]byte{0xAB}, 12))
 		}
 		if err := enc.EncodePage(ltx.PageHeader{Pgno: pg}, d); err != nil {
 			return err
@@ -373,11 +406,11 @@ func c10Garbage(dir string, f scn.FileRef) error {
 }
 
 type c10Job struct {
-		r    *c10Replica
-		fi   int    // plan file index
-		kind string // delete | trunc | xor01 | xorff | read-err | read-eof | exists-* | integrity
-		arg  int64
-		rep  int64
+	r    *c10Replica
+	fi   int    // plan file index
+	kind string // delete | trunc | xor01 | xorff | read-err | read-eof | exists-* | integrity
+	arg  int64
+	rep  int64
 }
 
 func c10Jobs(reps []*c10Replica, thorough bool) []c10Job {
@@ -392,7 +425,7 @@ func c10Jobs(reps []*c10Replica, thorough bool) []c10Job {
 				jobs = append(jobs, c10Job{r, fi, "xor01", o, 0}, c10Job{r, fi, "xorff", o, 0})
 			}
 		}
-		for _, k := range []string{"exists-file", "exists-dir", "exists-symlink", "integrity"} {
+		for _, k := range []string{"exists-file", "exists-dir", "exists-symlink", "integrity", "integrity-quick", "integrity-magic", "integrity-magic-quick", "integrity-schema", "integrity-schema-quick"} {
 			jobs = append(jobs, c10Job{r, 0, k, 0, 0})
 		}
 	}
@@ -420,101 +453,110 @@ func c10Jobs(reps []*c10Replica, thorough bool) []c10Job {
 
 // c10Exec performs one corruption/fault job in-process and classifies the outcome.
 func c10Exec(j c10Job, work string) (outcome string, prob *scn.Problem, desc string, herr error) {
-				f := j.r.Plan[j.fi]
-				desc = fmt.Sprintf("%s %s", j.kind, f)
-				switch j.kind {
-				case "delete", "trunc", "xor01", "xorff":
-					dir := filepath.Join(work, "replica")
-					os.RemoveAll(dir)
-					if err := copyTree(j.r.Dir, dir); err != nil {
-						herr = err
-						return
-					}
-					p := planPath(dir, f)
-					b, _ := os.ReadFile(p)
-					fi, _ := os.Stat(p)
-					switch j.kind {
-					case "delete":
-						os.Remove(p)
-					case "trunc":
-						os.WriteFile(p, b[:j.arg], 0o644)
-						desc += fmt.Sprintf(" to %d of %d bytes", j.arg, len(b))
-					case "xor01":
-						b[j.arg] ^= 0x01
-						os.WriteFile(p, b, 0o644)
-						desc += fmt.Sprintf(" at byte %d", j.arg)
-					case "xorff":
-						b[j.arg] ^= 0xFF
-						os.WriteFile(p, b, 0o644)
-						desc += fmt.Sprintf(" at byte %d", j.arg)
-					}
-					if j.kind != "delete" && fi != nil {
-						os.Chtimes(p, fi.ModTime(), fi.ModTime())
-					}
-					j.r.allowTail = j.kind == "delete" && j.fi == len(j.r.Plan)-1
-					outcome, prob = c10Restore(j.r, dir, nil, work, litestream.IntegrityCheckNone)
-					j.r.allowTail = false
-				case "read-err", "read-eof":
-					desc += fmt.Sprintf(" at offset %d x%d", j.arg, j.rep)
-					wrap := func(in litestream.ReplicaClient) litestream.ReplicaClient {
-						of := &offsetFault{ReplicaClient: in, Level: f.Level, Min: f.Min, Max: f.Max, At: j.arg, EOF: j.kind == "read-eof"}
-						of.times.Store(j.rep)
-						return of
-					}
-					outcome, prob = c10Restore(j.r, j.r.Dir, wrap, work, litestream.IntegrityCheckNone)
-					if prob == nil && j.rep <= 3 && outcome != "ok-identical" && !(j.kind == "read-eof" && j.arg >= f.Size) {
-						// within the retry budget the fault must be transparent; not a property violation, recorded as an outcome class
-						outcome = "error-within-retry-budget:" + outcome
-					}
-				case "exists-file", "exists-dir", "exists-symlink":
-					out := filepath.Join(work, "pre")
-					os.RemoveAll(out)
-					switch j.kind {
-					case "exists-file":
-						os.WriteFile(out, []byte("precious"), 0o644)
-					case "exists-dir":
-						os.MkdirAll(filepath.Join(out, "sub"), 0o755)
-					case "exists-symlink":
-						os.WriteFile(out+".target", []byte("precious"), 0o644)
-						os.Symlink(out+".target", out)
-					}
-					before := fingerprint(out)
-					r := litestream.NewReplicaWithClient(nil, file.NewReplicaClient(j.r.Dir))
-					opt := litestream.NewRestoreOptions()
-					opt.OutputPath = out
-					err := r.Restore(context.Background(), opt)
-					if err == nil {
-						prob = &scn.Problem{Kind: "existing-output-overwritten", Detail: j.kind + ": restore succeeded over an existing path"}
-					} else if fingerprint(out) != before {
-						prob = &scn.Problem{Kind: "existing-output-modified", Detail: j.kind + ": restore failed but the existing path changed"}
-					} else if _, e := os.Lstat(out + ".tmp"); e == nil {
-						prob = &scn.Problem{Kind: "tmp-left-behind", Detail: j.kind}
-					}
-					outcome = "refused"
-					os.RemoveAll(out)
-					os.Remove(out + ".target")
-				case "integrity":
-					// a replica whose snapshot carries garbage in a b-tree page but valid LTX checksums
-					dir := filepath.Join(work, "replica")
-					os.RemoveAll(dir)
-					copyTree(j.r.Dir, dir)
-					if err := c10Garbage(dir, j.r.Plan[len(j.r.Plan)-1]); err != nil {
-						herr = err
-						return
-					}
-					out := filepath.Join(work, "integ-out")
-					r := litestream.NewReplicaWithClient(nil, file.NewReplicaClient(dir))
-					opt := litestream.NewRestoreOptions()
-					opt.OutputPath = out
-					opt.IntegrityCheck = litestream.IntegrityCheckFull
-					err := r.Restore(context.Background(), opt)
-					if err == nil {
-						prob = &scn.Problem{Kind: "integrity-failure-not-reported", Detail: "restore with full integrity check succeeded on a database with a garbage b-tree page"}
-					} else if _, e := os.Lstat(out); e == nil {
-						prob = &scn.Problem{Kind: "output-kept-after-integrity-failure", Detail: scn.ErrClass(err)}
-					}
-					outcome = "integrity:" + errKind(fmt.Errorf("%v", err))
-					os.Remove(out)
-				}
+	f := j.r.Plan[j.fi]
+	desc = fmt.Sprintf("%s %s", j.kind, f)
+	switch j.kind {
+	case "delete", "trunc", "xor01", "xorff":
+		dir := filepath.Join(work, "replica")
+		os.RemoveAll(dir)
+		if err := copyTree(j.r.Dir, dir); err != nil {
+			herr = err
+			return
+		}
+		p := planPath(dir, f)
+		b, _ := os.ReadFile(p)
+		fi, _ := os.Stat(p)
+		switch j.kind {
+		case "delete":
+			os.Remove(p)
+		case "trunc":
+			os.WriteFile(p, b[:j.arg], 0o644)
+			desc += fmt.Sprintf(" to %d of %d bytes", j.arg, len(b))
+		case "xor01":
+			b[j.arg] ^= 0x01
+			os.WriteFile(p, b, 0o644)
+			desc += fmt.Sprintf(" at byte %d", j.arg)
+		case "xorff":
+			b[j.arg] ^= 0xFF
+			os.WriteFile(p, b, 0o644)
+			desc += fmt.Sprintf(" at byte %d", j.arg)
+		}
+		if j.kind != "delete" && fi != nil {
+			os.Chtimes(p, fi.ModTime(), fi.ModTime())
+		}
+		j.r.allowTail = j.kind == "delete" && j.fi == len(j.r.Plan)-1
+		outcome, prob = c10Restore(j.r, dir, nil, work, litestream.IntegrityCheckNone)
+		j.r.allowTail = false
+	case "read-err", "read-eof":
+		desc += fmt.Sprintf(" at offset %d x%d", j.arg, j.rep)
+		wrap := func(in litestream.ReplicaClient) litestream.ReplicaClient {
+			of := &offsetFault{ReplicaClient: in, Level: f.Level, Min: f.Min, Max: f.Max, At: j.arg, EOF: j.kind == "read-eof"}
+			of.times.Store(j.rep)
+			return of
+		}
+		outcome, prob = c10Restore(j.r, j.r.Dir, wrap, work, litestream.IntegrityCheckNone)
+		if prob == nil && j.rep <= 3 && outcome != "ok-identical" && !(j.kind == "read-eof" && j.arg >= f.Size) {
+			// within the retry budget the fault must be transparent; not a property violation, recorded as an outcome class
+			outcome = "error-within-retry-budget:" + outcome
+		}
+	case "exists-file", "exists-dir", "exists-symlink":
+		out := filepath.Join(work, "pre")
+		os.RemoveAll(out)
+		switch j.kind {
+		case "exists-file":
+			os.WriteFile(out, []byte("precious"), 0o644)
+		case "exists-dir":
+			os.MkdirAll(filepath.Join(out, "sub"), 0o755)
+		case "exists-symlink":
+			os.WriteFile(out+".target", []byte("precious"), 0o644)
+			os.Symlink(out+".target", out)
+		}
+		before := fingerprint(out)
+		r := litestream.NewReplicaWithClient(nil, file.NewReplicaClient(j.r.Dir))
+		opt := litestream.NewRestoreOptions()
+		opt.OutputPath = out
+		err := r.Restore(context.Background(), opt)
+		if err == nil {
+			prob = &scn.Problem{Kind: "existing-output-overwritten", Detail: j.kind + ": restore succeeded over an existing path"}
+		} else if fingerprint(out) != before {
+			prob = &scn.Problem{Kind: "existing-output-modified", Detail: j.kind + ": restore failed but the existing path changed"}
+		} else if _, e := os.Lstat(out + ".tmp"); e == nil {
+			prob = &scn.Problem{Kind: "tmp-left-behind", Detail: j.kind}
+		}
+		outcome = "refused"
+		os.RemoveAll(out)
+		os.Remove(out + ".target")
+	case "integrity", "integrity-quick", "integrity-magic", "integrity-magic-quick", "integrity-schema", "integrity-schema-quick":
+		// a replica whose files have valid LTX checksums but restore to a damaged database
+		dir := filepath.Join(work, "replica")
+		os.RemoveAll(dir)
+		copyTree(j.r.Dir, dir)
+		what := "page"
+		if strings.Contains(j.kind, "magic") {
+			what = "magic"
+		} else if strings.Contains(j.kind, "schema") {
+			what = "schema"
+		}
+		if err := c10Damage(dir, j.r.Plan, what); err != nil {
+			herr = err
+			return
+		}
+		out := filepath.Join(work, "integ-out")
+		r := litestream.NewReplicaWithClient(nil, file.NewReplicaClient(dir))
+		opt := litestream.NewRestoreOptions()
+		opt.OutputPath = out
+		opt.IntegrityCheck = litestream.IntegrityCheckFull
+		if strings.HasSuffix(j.kind, "-quick") {
+			opt.IntegrityCheck = litestream.IntegrityCheckQuick
+		}
+		err := r.Restore(context.Background(), opt)
+		if err == nil {
+			prob = &scn.Problem{Kind: "integrity-failure-not-reported", Detail: j.kind + ": restore with an integrity check succeeded on a damaged database (valid LTX checksums)"}
+		} else if _, e := os.Lstat(out); e == nil {
+			prob = &scn.Problem{Kind: "output-kept-after-integrity-failure", Detail: scn.ErrClass(err)}
+		}
+		outcome = j.kind + ":" + errKind(fmt.Errorf("%v", err))
+		os.Remove(out)
+	}
 	return
 }
